@@ -21,7 +21,23 @@ N = {'quick': 500, 'thorough': 3000}
 SHARDS = {'quick': 4, 'thorough': 16}
 
 
+def _sibling_scenario(case):
+    # the two sibling calls (differing in one confusable character) are the last two pool entries: compute one, push it out to the
+    # archive, then ask for the other - a lossy key -> storage-name mapping answers it with the first one's result
+    if case.get('confusable_pair'):
+        n = len(case['pool'])
+        case = dict(case, ops=[['call', n - 2, 0, 0], ['dump'], ['clear'], ['call', n - 1, 0, 0], ['call', n - 2, 1, 0]] + list(case['ops']))
+    return case
+
+
 def strata(tier):
+    # string-keyed persistent archives with sibling argument pairs (x:y / x|y / x y ...)
+    sib = G.strata_grid(modules=('std', 'safe'), algos=('lru', 'inf'), purges=(False,), families=('persist', 'direct'), maxsizes=(2, None),
+                        weights={'call': 10, 'dump': 2, 'clear': 2, 'load': 1}, max_ops=12, pool=(2, 4), confusable_pct=100)
+    return [('siblings/' + n, s.map(_sibling_scenario)) for n, s in sib] + _strata(tier)
+
+
+def _strata(tier):
     return G.strata_grid(
         maxsizes=(2, 1, 3, 5, None, 0),
         weights={'call': 16, 'burst': 1, 'load': 2, 'dump': 2, 'dumpk': 1, 'loadk': 1, 'clear': 1, 'clearkeep': 1,
